@@ -1,7 +1,6 @@
-(* Properties/C07.v — truncation is transparent: lookups and uniqueness survive it.
-   (The balance / checkpoint-funds statements are evaluated on the implementation by the monitors of
-   the truncation histories; their Coq statements are listed in DESIGN as work in progress.) *)
-From Verif Require Import U64 Spice SpiceP RepoConstants Ledger ListFacts LedgerInv LedgerGraph Ancestors LedgerFunds LedgerReach TruncateP.
+(* Properties/C07.v — truncation is transparent: balances, lookups and uniqueness survive it, and the checkpointed
+   funds are the net flow of exactly the checkpointed vertices, across any number of truncations. *)
+From Verif Require Import U64 Spice SpiceP RepoConstants Ledger ListFacts LedgerInv LedgerGraph Ancestors LedgerFunds LedgerReach TruncateP TruncateFunds.
 From Coq Require Import NArith Permutation.
 
 (* No confirmed vertex or transaction is lost and nothing new appears: every by-hash read gives the same
@@ -50,3 +49,87 @@ Theorem C07_checkpoint_funds_canonical : forall L tip cut a32 L' r,
   truncate L tip cut a32 = (L', r) -> funds_canon (st_funds L').
 Proof. exact truncate_funds_canon. Qed.
 Print Assumptions C07_checkpoint_funds_canonical.
+
+(* ---------------------------------------------------------------- balances *)
+(* Truncating changes no balance: for every surviving vertex n that is the cut or descends from it (every tip of a
+   single-tip ledger does), every address a that is not one of the 32-character strings the funds reload skips, the
+   exact reference sum the balance query reports (C06) is the same number before and after.  Side conditions: the
+   sums are representable and a is not overdrawn below the cut (otherwise: KNOWN-FINDING overdrawn-wallet-reset). *)
+Theorem C07_balance_preserved : forall L tip cut a32 L' a n,
+  InvG L -> NoDup (map nhash (dag L)) -> amounts_canon L ->
+  truncate L tip cut a32 = (L', ROk) -> leaves L <> [] -> nmem a a32 = false ->
+  In n (dag L) -> In cut (dag L) ->
+  let Hs := map nhash (ancestors L cut) in
+  let vs := map nv (ancestors L cut) in
+  keep Hs (nhash n) = true ->
+  (nhash n = nhash cut \/ anc (dag L) (nhash n) (nhash cut)) ->
+  valZ (funds_of L a) + sumZ (inZ a) vs < LIMIT -> sumZ (outZ a) vs < LIMIT ->
+  sumZ (outZ a) vs <= valZ (funds_of L a) + sumZ (inZ a) vs ->
+  In (strip Hs n) (dag L') /\ flowZ L' a (strip Hs n) = flowZ L a n.
+Proof. exact truncate_preserves_flow. Qed.
+Print Assumptions C07_balance_preserved.
+
+Theorem C07_reported_balance_unchanged : forall L tip cut a32 L' a n b b' m m',
+  InvG L -> NoDup (map nhash (dag L)) -> amounts_canon L -> amounts_canon L' ->
+  truncate L tip cut a32 = (L', ROk) -> leaves L <> [] -> nmem a a32 = false ->
+  In n (dag L) -> In cut (dag L) ->
+  let Hs := map nhash (ancestors L cut) in
+  let vs := map nv (ancestors L cut) in
+  keep Hs (nhash n) = true ->
+  (nhash n = nhash cut \/ anc (dag L) (nhash n) (nhash cut)) ->
+  valZ (funds_of L a) + sumZ (inZ a) vs < LIMIT -> sumZ (outZ a) vs < LIMIT ->
+  sumZ (outZ a) vs <= valZ (funds_of L a) + sumZ (inZ a) vs ->
+  balance L a n b = Some m -> balance L' a (strip Hs n) b' = Some m' -> m' = m.
+Proof. exact truncate_preserves_balance. Qed.
+Print Assumptions C07_reported_balance_unchanged.
+
+(* Later transfers are validated against the same funds: the cover test (C01) of a surviving descendant of the cut
+   gives the same verdict before and after. *)
+Theorem C07_validation_preserved : forall L tip cut a32 L' n,
+  InvG L -> NoDup (map nhash (dag L)) -> amounts_canon L ->
+  truncate L tip cut a32 = (L', ROk) -> leaves L <> [] ->
+  In n (dag L) -> In cut (dag L) ->
+  let a := t_issuer (v_trx (nv n)) in
+  let Hs := map nhash (ancestors L cut) in
+  let vs := map nv (ancestors L cut) in
+  nmem a a32 = false -> keep Hs (nhash n) = true ->
+  (nhash n = nhash cut \/ anc (dag L) (nhash n) (nhash cut)) ->
+  valZ (funds_of L a) + sumZ (inZ a) vs < LIMIT -> sumZ (outZ a) vs < LIMIT ->
+  sumZ (outZ a) vs <= valZ (funds_of L a) + sumZ (inZ a) vs ->
+  (coversZ L' (strip Hs n) <-> coversZ L n).
+Proof. exact truncate_preserves_cover. Qed.
+Print Assumptions C07_validation_preserved.
+
+(* ---------------------------------------------------------------- checkpointed funds *)
+(* One truncation: the funds written for a are the old funds plus the exact net flow of the moved vertices; the moved
+   vertices are pairwise different and none was checkpointed before (each counted once). *)
+Theorem C07_checkpoint_adds_net_flow_of_moved : forall L tip cut a32 L' a,
+  truncate L tip cut a32 = (L', ROk) -> leaves L <> [] -> amounts_canon L -> nmem a a32 = false ->
+  let vs := map nv (ancestors L cut) in
+  valZ (funds_of L a) + sumZ (inZ a) vs < LIMIT -> sumZ (outZ a) vs < LIMIT ->
+  sumZ (outZ a) vs <= valZ (funds_of L a) + sumZ (inZ a) vs ->
+  canon (funds_of L' a) /\ valZ (funds_of L' a) = valZ (funds_of L a) + sumZ (inZ a) vs - sumZ (outZ a) vs.
+Proof. exact truncate_funds_value. Qed.
+Print Assumptions C07_checkpoint_adds_net_flow_of_moved.
+
+Theorem C07_moved_counted_once : forall L tip cut a32 L',
+  truncate L tip cut a32 = (L', ROk) -> leaves L <> [] -> NoDup (map nhash (dag L)) ->
+  st_vtx L' = st_vtx L ++ map nv (ancestors L cut) /\
+  NoDup (map v_hash (map nv (ancestors L cut))) /\
+  forall v, In v (map nv (ancestors L cut)) -> stored L (v_hash v) = false.
+Proof.
+  intros L tip cut a32 L' H Hlv Hnd. split; [exact (truncate_st_vtx _ _ _ _ _ H Hlv)|exact (truncate_moved_fresh _ _ _ _ _ H Hlv Hnd)].
+Qed.
+Print Assumptions C07_moved_counted_once.
+
+(* Every operation sequence, any number of truncations (each effective one meeting the side conditions for a):
+   checkpointed funds of a = net flow of the checkpointed vertices; operations other than truncation touch neither. *)
+Theorem C07_checkpoint_is_net_flow : forall a ops L,
+  funds_net L a -> sides a L ops -> funds_net (fold_left lstep ops L) a.
+Proof. exact funds_net_all_sequences. Qed.
+Print Assumptions C07_checkpoint_is_net_flow.
+
+Theorem C07_other_operations_leave_checkpoint : forall L o,
+  (forall tip cut a32, o <> LTruncate tip cut a32) -> st_vtx (lstep L o) = st_vtx L /\ st_funds (lstep L o) = st_funds L.
+Proof. exact non_truncate_store. Qed.
+Print Assumptions C07_other_operations_leave_checkpoint.
